@@ -207,6 +207,34 @@ pub fn build_guarded<T>(rule: &'static str, what: &str, f: impl FnOnce() -> T) -
     }
 }
 
+thread_local! {
+    /// a second tokio runtime that is never driven: a service may be *built* while its context
+    /// is entered (application start-up code) and *used* on the simulated runtime
+    pub static FOREIGN_RT: std::cell::RefCell<Option<tokio::runtime::Runtime>> = const { std::cell::RefCell::new(None) };
+}
+
+/// Runs `f` inside the context of the foreign runtime (created on first use, dropped by
+/// `drop_foreign_runtime` after the run).
+pub fn built_in_foreign_runtime<T>(f: impl FnOnce() -> T) -> T {
+    FOREIGN_RT.with(|r| {
+        let mut g = r.borrow_mut();
+        let rt = g.get_or_insert_with(|| tokio::runtime::Builder::new_current_thread().enable_time().build().expect("runtime"));
+        let _e = rt.enter();
+        world::fault("built_in_another_runtime");
+        f()
+    })
+}
+
+pub fn drop_foreign_runtime() {
+    let rt = FOREIGN_RT.with(|r| r.borrow_mut().take());
+    if let Some(rt) = rt {
+        // outside any async context: shutting a runtime down from within one panics
+        std::thread::scope(|s| {
+            s.spawn(move || drop(rt));
+        });
+    }
+}
+
 /// u32::MAX in a scenario stands for usize::MAX ("no limit" written as a count)
 pub fn count(n: u32) -> usize {
     if n == u32::MAX {
